@@ -42,6 +42,7 @@ MUST_REACH = ["lena/core/sequence.py:Sequence.run", "lena/core/adapters.py:Run._
 MUST_COUNT = ["pull_events", "got_events", "stop_points_checked", "census_events"]
 MIN_NONTRIVIAL = {"quick": 3000, "thorough": 150000}
 NPROG = {"quick": 12000, "thorough": 600000}
+NBIG = {"quick": 600, "thorough": 20000}
 
 LEVEL_TEXT = ("Seeded random exploration of streaming pipelines; each execution of the real code is "
               "watched through a pull/got event trace and compared, at every consumer stop point, "
@@ -55,6 +56,14 @@ TECHNIQUE = "pull/got event-trace checker against an ideally lazy reference + pu
 
 CALLS = ["inc", "dbl", "neg", "sq", "add10", "half", "ctx:a"]
 PREDN = ["even", "odd", "pos", "lt5", "mod3", "true", "false"]
+
+
+_BIG = [False]     # generation of the programs beyond the small sizes (see cases)
+
+
+def _bigint(rng, lo=5):
+    return rng.choice([7, 15, 16, 17, 31, 32, 33, 63, 64, 65, 100, 127, 128, 129,
+                       rng.randint(lo, 140)])
 
 
 def rand_el(rng, depth=0, allow_split=True):
@@ -81,9 +90,22 @@ def rand_el(rng, depth=0, allow_split=True):
         a = rng.choice([None, 0, 1, 2, 3])
         b = rng.choice([None, 1, 2, 3, 5, 8])
         c = rng.choice([None, 1, 2, 3])
+        if _BIG[0] and rng.random() < 0.8:
+            a = rng.choice([None, 0, 1, _bigint(rng) // 2])
+            b = rng.choice([None, _bigint(rng), _bigint(rng) * 2])
+            c = rng.choice([None, 1, 2, 7, 16, 17])
         return ["slice", [a, b, c]]
     if k == "negslice":
         form = rng.choice(["stop", "startstop", "start", "startposstop"])
+        if _BIG[0] and rng.random() < 0.8:
+            m = _bigint(rng)
+            if form == "stop":
+                return ["slice", [None, -m]]
+            if form == "startstop":
+                return ["slice", [rng.randint(0, 20), -m, rng.choice([None, 1, 2, 5])]]
+            if form == "start":
+                return ["slice", [-m, None]]
+            return ["slice", [-m, rng.randint(0, 150)]]
         if form == "stop":
             return ["slice", [None, -rng.randint(1, 3)]]
         if form == "startstop":
@@ -113,11 +135,16 @@ def rand_el(rng, depth=0, allow_split=True):
         # FillRequest around a run element with yield_on_remainder: documented to use no
         # internal buffer during run (results are yielded one by one, block after block)
         return ["frun", [rand_el(rng, 2, False) for _ in range(rng.randint(0, 2))],
-                rng.randint(1, 5), rng.choice([None, None, "buffer_input", "buffer_output"])]
+                _bigint(rng, 6) if _BIG[0] and rng.random() < 0.7 else rng.randint(1, 5),
+                rng.choice([None, None, "buffer_input", "buffer_output"])]
     if k == "split":
         nb = rng.randint(1, 3)
+        bs = rng.randint(1, 4)
+        if _BIG[0] and rng.random() < 0.7:
+            nb = rng.choice([nb, rng.randint(5, 12)])
+            bs = rng.choice([bs, _bigint(rng)])
         return ["split", [[rand_el(rng, 2, False) for _ in range(rng.randint(1, 2))]
-                          for _ in range(nb)], rng.randint(1, 4), rng.choice([True, False])]
+                          for _ in range(nb)], bs, rng.choice([True, False])]
     raise AssertionError(k)
 
 
@@ -128,6 +155,28 @@ def cases(tier, seed):
         n = rng.randint(0, 12)
         rec = {"k": "trace", "els": els, "n": n, "inf": rng.random() < 0.35,
                "stops": sorted(set(rng.randint(0, 8) for _ in range(2)))}
+        x = rng.random()
+        if x < 0.15:
+            rec["form"] = "seq-copy"
+        elif x < 0.3:
+            rec["form"] = "source-reiterable"
+        elif x < 0.4:
+            rec["form"] = "split-source"
+        elif x < 0.5:
+            rec["form"] = "source-abc-sequence"
+        yield rec
+    # beyond the small sizes: 1..14 elements, flows of 17..300 values, block sizes, slice
+    # indices and branch counts in the tens
+    for i in range(NBIG[tier]):
+        rng = gen.rng_for(seed, "C02big", i)
+        _BIG[0] = True
+        try:
+            els = [rand_el(rng) for _ in range(rng.choice([1, 2, 3, 4, 6, 9, 14]))]
+        finally:
+            _BIG[0] = False
+        n = rng.choice([17, 33, 64, 65, 100, 129, 257, 300, rng.randint(17, 300)])
+        rec = {"k": "trace", "els": els, "n": n, "inf": rng.random() < 0.35,
+               "stops": sorted(set([rng.randint(0, 8), rng.randint(9, 140)])), "big": 1}
         x = rng.random()
         if x < 0.15:
             rec["form"] = "seq-copy"
@@ -524,13 +573,14 @@ def _trace_case(r, obs):
         if r["inf"]:
             # reference on an unbounded flow with a generous budget; if even the ideal
             # pipeline does not finish, the case is about the prefix only
-            kw = {"n": None, "budget": 60}
-        tr_ref, res_ref, out_ref = trace_run(ref_start, kw, take=40)
+            kw = {"n": None, "budget": 700 if r.get("big") else 60}
+        cap = 350 if r.get("big") else 40
+        tr_ref, res_ref, out_ref = trace_run(ref_start, kw, take=cap)
         pr, end_r, _, total_ref = pulls_before_each_got(tr_ref)
         kw_real = dict(kw)
         if r["inf"]:
-            kw_real["budget"] = 60
-        tr, res, out = trace_run(real_start, kw_real, take=40)
+            kw_real["budget"] = kw["budget"]
+        tr, res, out = trace_run(real_start, kw_real, take=cap)
         p, end, before, total = pulls_before_each_got(tr)
         obs.count("pull_events", total)
         obs.count("got_events", len(res))
@@ -586,7 +636,7 @@ def _trace_case(r, obs):
                         turn += 1
                         if live[i] and len(outs[i]) >= len(res_ref) and out_ref != "exhausted":
                             # the reference was read up to a cap: stop this run there too
-                            gens[i].close()
+                            getattr(gens[i], "close", lambda: None)()   # (a bare Probe has none)
                             live[i] = False
                         if not live[i]:
                             continue
